@@ -99,3 +99,17 @@ Example mh_vectors :
   mh_decode_bytes [18] = None /\                   (* too short *)
   mh_decode_bytes [128; 0; 1; 5] = None.           (* non-minimal varint *)
 Proof. vm_compute. auto 10. Qed.
+
+Lemma uv_enc_bytes fuel : forall n, Forall is_byte (uv_enc fuel n).
+Proof.
+  induction fuel as [|f IH]; intros n; cbn; [constructor|].
+  destruct (N.ltb_spec n 128).
+  - repeat constructor. unfold is_byte. lia.
+  - constructor; [|apply IH]. unfold is_byte. pose proof (N.mod_upper_bound n 128 ltac:(lia)). lia.
+Qed.
+
+Lemma mh_encode_bytes_bytes code d : Forall is_byte d -> Forall is_byte (mh_encode_bytes code d).
+Proof.
+  intros H. unfold mh_encode_bytes, uvarint_encode.
+  apply Forall_app. split; [apply uv_enc_bytes|]. apply Forall_app. split; [apply uv_enc_bytes|exact H].
+Qed.
